@@ -64,6 +64,14 @@ theorem decoder_table_is_shipped :
     infoModelTbl.toList = shipped.map (fun r => (r.1, r.2.1, r.2.1, typeIndex r.2.2.2)) := by
   decide +kernel
 
+/-- over regenerated facts: `LoadExtElements` builds each entry as the theorems above assume — keyed by
+(PEN, element id), FieldID = the element id, type = the `FieldTypes` lookup of the row's type name
+(a missing name giving `Unknown`) -/
+theorem load_path_as_modelled :
+    loadExtAssignment =
+      "InfoModel[ElementKey{PEN, elementID}] = InfoElementEntry{FieldID: elementID, Name: prop[0], Type: FieldTypes[prop[1]]}" := by
+  decide +kernel
+
 /-! ## The hand-written model's `minLen` / `interpret` agree with the generated switch tables -/
 
 /-- `minLen` of the generated switch of `ipfix/interpret.go` -/
